@@ -331,6 +331,9 @@ C('func_get', 'no-box', lambda g: ((g.uniform(-1, 1, size=(6, 2)),
 C('func_gets', 'same', lambda g: ((tt(g, [4, 5, 3]),), {}))
 C('func_gets', 'm-list', lambda g: ((tt(g, [4, 5, 3]), [6, 3, 4]), {}))
 C('func_gets', 'm-int', lambda g: ((tt(g, [4, 5, 3]), 5), {}))
+C('func_gets', 'sin-same', lambda g: ((tt(g, [4, 5, 3]),), dict(kind='sin')))
+C('func_gets', 'sin-m-list', lambda g: ((tt(g, [4, 5, 3]), [6, 3, 4], 'sin'), {}))
+C('func_gets', 'sin-m-int', lambda g: ((tt(g, [4, 5, 3]), 5), dict(kind='sin')))
 C('func_int', 'cheb', lambda g: ((tt(g, [4, 5, 3]),), {}))
 C('func_int', 'sin', lambda g: ((tt(g, [4, 5, 3]), 'sin'), {}))
 C('func_int_general', 'cheb-basis', lambda g: ((tt(g, [4, 4, 4]),
@@ -357,6 +360,17 @@ C('sample', 'default', lambda g: ((tt(g, [3, 4, 2], pos=True), 6), dict(
     seed=seed_kw(g))), seeded=True)
 C('sample', 'unsert0', lambda g: ((tt(g, [3, 4, 2], pos=True), 3,
     seed_kw(g), 0.), {}), seeded=True)
+def _null_slice_tt(g):
+    # non-negative tensor with an all-zero first-mode slice and a total mass
+    # comparable to `unsert`: zero-mass prefixes are really drawn
+    Y = tt(g, [3, 4, 2], pos=True)
+    Y[0][:, int(g.integers(3)), :] = 0.
+    Y[0] *= 1e-10
+    return Y
+
+
+C('sample', 'null-slice', lambda g: ((_null_slice_tt(g), 40), dict(
+    seed=seed_kw(g))), seeded=True)
 C('sample_square', 'unique', lambda g: ((tt(g, [3, 4, 2]), 5), dict(
     seed=seed_kw(g))), seeded=True)
 C('sample_square', 'not-unique', lambda g: ((tt(g, [3, 4, 2]), 5, False), dict(
